@@ -51,33 +51,39 @@ func main() {
 		}
 		for _, T := range []int{2, 3, 4} {
 			for _, buf := range []int{1, 100} {
-				for _, n := range b.sizes(T) {
-					ref, rerr := b.run(n, tp.New(1, buf))
-					for r := 0; r < reps; r++ {
-						p := tp.New(T, buf)
-						got, err := b.run(n, p)
-						p.Stop()
-						out.Runs++
-						if (err == nil) != (rerr == nil) {
-							out.Errors = append(out.Errors, fmt.Sprintf("%s|T=%d|buf=%d|n=%d: error %v vs sequential %v", b.name, T, buf, n, err, rerr))
-							break
+				for ni, n := range b.sizes(T) {
+					for _, reuse := range []bool{false, true} {
+						if reuse && !(ni == 0 && buf == 100) {
+							continue
 						}
-						if len(got) != len(ref) {
-							out.Mismatch = append(out.Mismatch, fmt.Sprintf("%s|T=%d|buf=%d|n=%d: length", b.name, T, buf, n))
-							break
-						}
-						bad := false
-						for i := range got {
-							x, y := got[i], ref[i]
-							if (math.IsNaN(x) && math.IsNaN(y)) || x == y || math.Abs(x-y) <= 1e-9*math.Max(1, math.Abs(y)) {
-								continue
+						reuseFirst = reuse
+						ref, rerr := b.run(n, tp.New(1, buf))
+						for r := 0; r < reps; r++ {
+							p := tp.New(T, buf)
+							got, err := b.run(n, p)
+							p.Stop()
+							out.Runs++
+							if (err == nil) != (rerr == nil) {
+								out.Errors = append(out.Errors, fmt.Sprintf("%s|T=%d|buf=%d|n=%d: error %v vs sequential %v", b.name, T, buf, n, err, rerr))
+								break
 							}
-							out.Mismatch = append(out.Mismatch, fmt.Sprintf("%s|T=%d|buf=%d|n=%d: component %d = %v, sequential %v", b.name, T, buf, n, i, x, y))
-							bad = true
-							break
-						}
-						if bad {
-							break
+							if len(got) != len(ref) {
+								out.Mismatch = append(out.Mismatch, fmt.Sprintf("%s|T=%d|buf=%d|n=%d: length", b.name, T, buf, n))
+								break
+							}
+							bad := false
+							for i := range got {
+								x, y := got[i], ref[i]
+								if (math.IsNaN(x) && math.IsNaN(y)) || x == y || math.Abs(x-y) <= 1e-9*math.Max(1, math.Abs(y)) {
+									continue
+								}
+								out.Mismatch = append(out.Mismatch, fmt.Sprintf("%s|T=%d|buf=%d|n=%d: component %d = %v, sequential %v", b.name, T, buf, n, i, x, y))
+								bad = true
+								break
+							}
+							if bad {
+								break
+							}
 						}
 					}
 				}
